@@ -690,6 +690,7 @@ CONSTANTS
   ReleaseClears = %s
   PutOnReturn = %s
   FailPuts = 1
+  UseAfterRelease = FALSE
 INVARIANT Safety
 CHECK_DEADLOCK FALSE
 """
@@ -718,6 +719,11 @@ def c17(ctx):
     guards["error-path-puts-twice"] = r["status"]
     if r["status"] != "invariant":
         raise Broken("Pool.tla does not reject a double Put on Garble's error path (%s)" % r["status"])
+    r = ctx.tlc("Pool", "Pool_mc.cfg", name="pool-guard-use-after-release", timeout=1500,
+                cfg_text=(POOL_CFG % ("{1, 2}", 3, "TRUE", "TRUE", "FALSE")).replace("UseAfterRelease = FALSE", "UseAfterRelease = TRUE"))
+    guards["use-after-release"] = r["status"]
+    if r["status"] != "invariant":
+        raise Broken("Pool.tla does not reject a holder that reads its garbling after releasing it (%s)" % r["status"])
     ctx.cov["spec_rejects_deviations"] = guards
     # (G) forced lazy-creation race through the gate
     cres = os.path.join(ctx.tmp, "c17cas.ndjson")
@@ -736,6 +742,11 @@ def c17(ctx):
 
     if run_or_crash(["c17", "casrace", cres, 60 if thorough else 12], timeout=1500):
         ctx.absorb(cres)
+    # (G) whole sessions overlapping on one circuit value, the peer of the older ones slow (Pool.tla's Use: a session
+    # reads its own garbling until it is done with it, whatever the sessions after it do)
+    sres = os.path.join(ctx.tmp, "c17sess.ndjson")
+    if run_or_crash(["c17", "sessions", sres, 40 if thorough else 8], timeout=3000):
+        ctx.absorb(sres)
     # (T) stress histories
     trace = os.path.join(ctx.tmp, "pool_trace.ndjson")
     res = os.path.join(ctx.tmp, "c17res.ndjson")
@@ -1470,13 +1481,40 @@ def c12(ctx):
         rnd = random.Random(ctx.seed)
         nb = [c for c in space if c["bool"]]
         cases = rnd.sample([c for c in space if not c["bool"]], 7000) + nb
+    # the same folds on other routes (constant locals, constant arguments, an unsized function instantiated at two
+    # widths, a constant that is also cast to a wider type); case numbers leave room for a second observation
+    import random as _r
+    rr = _r.Random(ctx.seed * 7 + 1)
+    rbase = [c for c in space if not c["bool"] and c["w"] <= 65]
+    routed = []
+    for c in (rbase if thorough else rr.sample(rbase, 6000)):
+        if thorough and c["k"] not in ("ret", "add1"):
+            continue
+        for route in ("local", "param", "unsized", "cast"):
+            if route == "unsized" and c["k"] != "ret":
+                continue
+            if not thorough and rr.random() > 0.3:
+                continue
+            d = dict(c)
+            d["route"] = route
+            d["swap"] = rr.randrange(2) if route in ("unsized", "cast") else 0
+            routed.append(d)
+    base_i = len(space) + 10
+    for j, d in enumerate(routed):
+        d["i"] = base_i + 2 * j
+    ctx.cov["routed_cases"] = len(routed)
+    cases = cases + routed
     n_ev = 0
     for rf, events, verdicts, n in c12_run(ctx, cases):
         ctx.absorb(rf)
         n_ev += n
         for e in events:
             v = verdicts[e["i"]]
-            if not v["same"]:
+            if not v["same"] and "/" in e["key"].split("@")[0] and e.get("pkgfv") not in (None, e["fv"]):
+                # a routed case whose fold differs from what the package-constant route folds for the same typed operands
+                ctx.violation("fold-route:" + e["key"], "%s: folded constant %s, run-time circuit %s, the same operands as package constants fold to %s" % (
+                    e["what"], e["fv"], e["rv"], e["pkgfv"]))
+            elif not v["same"]:
                 ctx.violation("fold:" + e["key"], "%s: folded constant %s, run-time circuit %s" % (e["what"], e["fv"], e["rv"]))
             elif v["typed"] == "bad":
                 ctx.drift.append("%s: folded and run-time agree on %s, which is not the typed value of FoldCat.tla" % (e["what"], e["rv"]))
